@@ -46,6 +46,23 @@ def attach_tap():
 
     mon.register_callback(_TAP_TOOL, mon.events.PY_RETURN, on_return)
     mon.set_local_events(_TAP_TOOL, code, mon.events.PY_RETURN)
+    # second tap: entries of reduce_db() that find >= 2000 learned clauses (the reduction actually runs)
+    rcode = None
+    for c in mod.solve_sat.__code__.co_consts:
+        if hasattr(c, "co_name") and c.co_name == "reduce_db":
+            rcode = c
+    if rcode is not None:
+
+        def on_start(co, off):
+            try:
+                fl = sys._getframe(1).f_locals
+                if len(fl.get("learned", ())) >= 2000:
+                    _TAP["reductions"] = _TAP.get("reductions", 0) + 1
+            except Exception:  # noqa: BLE001
+                pass
+
+        mon.register_callback(_TAP_TOOL, mon.events.PY_START, on_start)
+        mon.set_local_events(_TAP_TOOL, rcode, mon.events.PY_START)
     _TAP["attached"] = True
     return True
 
@@ -221,23 +238,54 @@ def judge(clauses, cfg, res, verdict, learned, analyze_calls, tap_on, models=Non
                 ("C02", "max_iter_without_budget", f"MAX_ITER after {analyze_calls} analysed conflicts; budgets need >= {need}")
             )
     # ---- C02 mechanism: learned clauses are entailed by the formula (blocked models excepted)
-    if learned:
+    if learned and not any(len(c) == 0 for c in clauses):
         vs = satref.variables(clauses)
-        fm = satref.model_dicts([list(c) for c in clauses], vs) if not any(len(c) == 0 for c in clauses) else []
+        ms, pos = satref.all_models([list(c) for c in clauses], vs)
+        mset = set(ms)
         blocked = set()
         for _, s in returned:
             if isinstance(s, dict):
-                blocked.add(tuple(sorted((v, b) for v, b in s.items() if v in set(vs))))
+                a = 0
+                for v, b in s.items():
+                    if b and v in pos:
+                        a |= 1 << pos[v]
+                blocked.add(a)
+        n = len(vs)
         for lc in learned:
-            for m in fm:
-                if tuple(sorted(m.items())) in blocked:
-                    continue
-                if satref.satisfies(m, [lc]) >= 0:
-                    out.append(("C02", "unimplied_learned_clause", f"learned clause {lc} excludes model {m}, which was not returned"))
-                    break
-            else:
+            if any(abs(l) not in pos for l in lc):
+                continue  # mentions an assumption-only variable: not judged
+            must0 = must1 = 0  # assignments falsifying lc: positive literals 0, negative literals 1
+            taut = False
+            for l in lc:
+                b = 1 << pos[abs(l)]
+                if l > 0:
+                    must0 |= b
+                else:
+                    must1 |= b
+            if must0 & must1:
+                taut = True
+            if taut:
                 continue
-            break
+            free = [i for i in range(n) if not (must0 | must1) >> i & 1]
+            bad = None
+            if (1 << len(free)) <= len(ms):
+                for k in range(1 << len(free)):
+                    a = must1
+                    for j, i in enumerate(free):
+                        if k >> j & 1:
+                            a |= 1 << i
+                    if a in mset and a not in blocked:
+                        bad = a
+                        break
+            else:
+                for a in ms:
+                    if a & must0 == 0 and a & must1 == must1 and a not in blocked:
+                        bad = a
+                        break
+            if bad is not None:
+                m = {v: bool(bad >> pos[v] & 1) for v in vs}
+                out.append(("C02", "unimplied_learned_clause", f"learned clause {lc} excludes model {m}, which was not returned"))
+                break
     return out
 
 
@@ -248,17 +296,19 @@ def call(clauses, cfg):
     tap_on = attach_tap()
     _TAP["learned"] = []
     _TAP["calls"] = 0
-    kw = {k: v for k, v in cfg.items() if v is not None}
+    kw = {k: v for k, v in cfg.items() if v is not None and not k.startswith("_")}
+    alarm_s, fuel = cfg.get("_guard", (2.0, 20_000_000))
 
     def run():
         _TAP["learned"] = []
         _TAP["calls"] = 0
+        _TAP["reductions"] = 0
         try:
             return solve_sat([list(c) for c in clauses], **kw), None
         except Exception as ex:  # noqa: BLE001
             return None, f"raised {type(ex).__name__}: {ex}"
 
-    v, verdict = guarded(run, 2.0, 2_000_000)
+    v, verdict = guarded(run, alarm_s, fuel)
     if verdict == "nontermination":
         return None, verdict, [], 0, tap_on
     res, err = v
@@ -302,6 +352,9 @@ def run_case(pid, clauses, cfg, r, models_cache=None):
         r["nontrivial"] += 1
     if not tap_on:
         r["counters"]["tap_not_attached"] += 1
+    if _TAP.get("reductions"):
+        r["counters"]["cases_with_effective_reduce_db"] += 1
+        r["counters"]["effective_reduce_db_calls"] += _TAP["reductions"]
     preds = []
     if clauses and all(len(c) == 0 for c in clauses) and not cfg.get("assumptions"):
         preds.append("only_empty_clauses_no_assumptions")
@@ -313,7 +366,7 @@ def run_case(pid, clauses, cfg, r, models_cache=None):
                 "function": "solve_sat",
                 "predicates": preds,
                 "kind": kind,
-                "witness": {"clauses": [list(c) for c in clauses], "config": {k: v for k, v in cfg.items() if v is not None}},
+                "witness": {"clauses": [list(c) for c in clauses], "config": {k: v for k, v in cfg.items() if v is not None and not k.startswith("_")}},
                 "detail": f"solve_sat({[list(c) for c in clauses]}, {cfg}): {detail}",
             }
         )
@@ -351,7 +404,7 @@ def _formula_cfg_chunk(params, lo, hi):
             cfg["assumptions"] = [(remap.get(abs(l), abs(l) + 10) if l > 0 else -remap.get(abs(l), abs(l) + 10)) for l in cfg["assumptions"]]
         run_case(pid, f, cfg, r, cache)
         if len(r["samples"]) < 1 and idx == lo:
-            r["samples"].append({"clauses": [list(c) for c in f], "config": {k: v for k, v in cfg.items() if v is not None}})
+            r["samples"].append({"clauses": [list(c) for c in f], "config": {k: v for k, v in cfg.items() if v is not None and not k.startswith("_")}})
         if len(r["violations"]) >= 40 or r["counters"]["hangs"] >= 2:
             r["capped"] = True
             break
@@ -368,7 +421,7 @@ def _explicit_chunk(params, lo, hi):
             r["capped"] = True
             break
         if idx == lo:
-            r["samples"].append({"clauses": [list(c) for c in clauses][:8], "n_clauses": len(clauses), "config": {k: v for k, v in cfg.items() if v is not None}})
+            r["samples"].append({"clauses": [list(c) for c in clauses][:8], "n_clauses": len(clauses), "config": {k: v for k, v in cfg.items() if v is not None and not k.startswith("_")}})
     return r
 
 
@@ -434,14 +487,32 @@ def structured_cases(tier):
     return cases
 
 
+HEAVY = (120.0, 1_500_000_000)  # alarm seconds, JUMP-event fuel for cases that legitimately run for seconds
+MEDIUM = (30.0, 300_000_000)
+RD_BASE = [[1, 2, 3], [-4, 5, 6], [7, -8, 9], [-10, 11, -12]]
+RD_LINKS = [[1, -5, 9], [-2, 6, -13], [3, -6, 13], [-9, 12, 13], [2, -7, -13]]
+
+
 def reduce_db_cases(tier):
-    """>= 2000 learned/blocking clauses so that the clause-database reduction runs over blocking clauses."""
+    """>= 2000 learned/blocking clauses so that the clause-database reduction runs over blocking clauses.
+
+    Directed family: four disjoint ternary clauses over 12 variables plus every 1- or 2-subset of five linking
+    clauses that brings in a 13th variable (3000-5000 models each), all models requested; the blocking clauses
+    themselves cause the conflicts and restarts after which reduce_db runs (evidence counts the effective calls)."""
     cases = []
+    link_sets = [[l] for l in RD_LINKS if 13 in map(abs, l)] + [list(p) for p in itertools.combinations(RD_LINKS, 2)]
+    cfgs = [dict(solution_limit=6000, luby_factor=1), dict(solution_limit=6000, luby_factor=100)]
+    if tier == "thorough":
+        cfgs += [dict(solution_limit=2500, luby_factor=1), dict(solution_limit=6000, luby_factor=2), dict(solution_limit=6000, luby_factor=1, assumptions=[13])]
+    for ls in link_sets:
+        for c in cfgs:
+            cases.append((RD_BASE + ls, dict(c, _guard=HEAVY)))
     for n in (11, 12) if tier == "thorough" else (11,):
         wide = [list(range(1, n + 1)), [-v for v in range(1, n + 1)]]
-        cases.append((wide, dict(solution_limit=2**n + 5, luby_factor=1)))
-        cases.append((wide, dict(solution_limit=2**n + 5, luby_factor=100)))
-        cases.append((wide + [[1, -2, 3]], dict(solution_limit=2**n + 5, luby_factor=2)))
+        g = HEAVY
+        cases.append((wide, dict(solution_limit=2**n + 5, luby_factor=1, _guard=g)))
+        cases.append((wide, dict(solution_limit=2**n + 5, luby_factor=100, _guard=g)))
+        cases.append((wide + [[1, -2, 3]], dict(solution_limit=2**n + 5, luby_factor=2, _guard=g)))
     return cases
 
 
@@ -543,7 +614,7 @@ def _block_chunk(params, lo, hi):
             cache = {}
         run_case(pid, f, cfg, r, cache)
         if idx == lo:
-            r["samples"].append({"clauses": [list(c) for c in f], "config": {k: v for k, v in cfg.items() if v is not None}})
+            r["samples"].append({"clauses": [list(c) for c in f], "config": {k: v for k, v in cfg.items() if v is not None and not k.startswith("_")}})
         if len(r["violations"]) >= 40 or r["counters"]["hangs"] >= 2:
             r["capped"] = True
             break
